@@ -629,12 +629,146 @@ Proof.
     right. destruct DD as [[-> _]|DD]; [reflexivity|exact DD].
 Qed.
 
-(* RECOVER2 *)
+Lemma trunc_head_pinv w n lp :
+  PInv w lp -> noslots w -> pid (w_dk w) <= n -> n <= fr_head (w_fr w) ->
+  PInv (fr_trunc_head w n) lp /\ noslots (fr_trunc_head w n) /\
+  w_stail w <= w_stail (fr_trunc_head w n) /\
+  w_fr (fr_trunc_head w n) = mkFrz (fr_tail (w_fr w)) n (fr_data (w_fr w)) /\
+  w_dk (fr_trunc_head w n) = w_dk w /\ w_diffs (fr_trunc_head w n) = w_diffs w /\
+  w_cfg (fr_trunc_head w n) = w_cfg w /\ w_proot (fr_trunc_head w n) = w_proot w /\
+  w_ro (fr_trunc_head w n) = w_ro w.
+Proof.
+  intros P NS H1 H2. assert (P' := P). destruct P' as [P1 P2 P3 P4 P5 P6 P7 P8 P9 P10 P11].
+  unfold fr_trunc_head. destruct (n <? w_shead w) eqn:E.
+  - apply N.ltb_lt in E. split.
+    + apply (pinv_transfer_core w _ lp P).
+      * reflexivity.
+      * simpl. eapply fok_mono; eauto.
+      * simpl. exact H1.
+      * simpl. apply N.le_refl.
+      * simpl. apply N.le_refl.
+      * simpl. exact P9.
+      * intros j Hj. exfalso. apply (noslots_in _ j NS). exact Hj.
+    + simpl. split; [exact NS|]. split; [exact P8|]. repeat split.
+  - apply N.ltb_ge in E. split.
+    + apply (pinv_transfer_core w _ lp P).
+      * reflexivity.
+      * simpl. exact P5.
+      * simpl. exact P6.
+      * simpl. exact E.
+      * simpl. exact P8.
+      * simpl. exact P9.
+      * intros j Hj. exfalso. apply (noslots_in _ j NS). exact Hj.
+    + simpl. split; [exact NS|]. split; [apply N.le_refl|]. repeat split.
+Qed.
+
 Lemma recover_ok w root :
   WInv w ->
   exists evs o, recover w root = (evs, o) /\ (forall e, In e evs -> CP (snd e)) /\ WInv (out_world o).
 Proof.
-Admitted.
+  intro WI. unfold recover.
+  destruct (w_ro w) eqn:RO.
+  { exists [], (Fail 3 w). split; [reflexivity|]. split; [intros ? []|exact WI]. }
+  destruct (recoverable w root) eqn:RC; cbn [negb].
+  2:{ exists [], (Fail 4 w). split; [reflexivity|]. split; [intros ? []|exact WI]. }
+  destruct WI as [[l [lp LI]] [R1 R2 R3] RJw M JS].
+  rewrite M. replace (2 =? 2) with true by reflexivity.
+  destruct (drop_journal w) as [ed wd] eqn:ED.
+  destruct (drop_journal_ok w lp ed wd (li_p _ _ _ LI) JS ED)
+    as [PD [PWd [NSd [K1 [K2 [K3 [K4 [K5 [K6 [K7 [K8 K9]]]]]]]]]]].
+  assert (D := li_d _ _ _ LI).
+  assert (RVd : RV wd l lp).
+  { constructor.
+    - rewrite K1. exact D.
+    - exact (li_wf _ _ _ LI).
+    - rewrite K3, (li_head _ _ _ LI). apply N.le_refl.
+    - rewrite K5, K3. exact (li_fr _ _ _ LI).
+    - exact PWd.
+    - exact NSd. }
+  (* the target state is on the chain *)
+  unfold recoverable in RC.
+  destruct (w_ids w root) as [id|]; [|discriminate].
+  destruct (disk_id (w_dk w) <=? id) eqn:E1; [discriminate|]. apply N.leb_gt in E1.
+  destruct (fr_read (w_fr w) (id + 1)) as [h|] eqn:FRD; [|discriminate]. apply N.eqb_eq in RC.
+  assert (Hlen : id < len l) by (rewrite <- (i_id _ _ _ D); exact E1).
+  destruct (split_at_len l id Hlen) as [pre [t [r [El Hr]]]].
+  unfold fr_read in FRD.
+  destruct ((fr_tail (w_fr w) <? id + 1) && (id + 1 <=? fr_head (w_fr w))) eqn:EB; [|discriminate].
+  apply andb_true_iff in EB. destruct EB as [EB1 EB2]. apply N.ltb_lt in EB1.
+  assert (Pst := p_st _ _ (li_p _ _ _ LI)).
+  assert (Hh : h_parent h = root_rev 0 r).
+  { assert (X := frz_ok_data 0 (mkFrz (w_stail w) 0 (fr_data (w_fr w))) pre l t r (li_fr _ _ _ LI) El).
+    simpl in X. rewrite len_cons, Hr in X. rewrite X in FRD by lia. injection FRD as <-. reflexivity. }
+  assert (El' : l = (pre ++ [t]) ++ r) by (rewrite <- app_assoc; exact El).
+  assert (Hfuel : (length (pre ++ [t]) < S (N.to_nat (disk_id (w_dk wd))))%nat).
+  { rewrite K1, (i_id _ _ _ D). unfold len. rewrite Nat2N.id. rewrite El, !app_length. simpl. lia. }
+  destruct (recover_loop_ok root _ wd l lp (pre ++ [t]) r RVd El' (eq_trans (eq_sym Hh) RC)
+              ltac:(rewrite K3, Hr; lia) Hfuel)
+    as [e1 [w0 [l' [lp' [EL [Pev [R0 [C0 [O0 [J0 [F0 [S0 [T0 DD]]]]]]]]]]]]].
+  rewrite EL. rewrite C0, K8, M. replace (2 =? 1) with false by reflexivity.
+  destruct R0 as [D0 WF0 HH0 FK0 P0 NS0].
+  assert (Hn : disk_id (w_dk w0) = len l') by apply (i_id _ _ _ D0).
+  assert (Ppid : pid (w_dk w0) <= disk_id (w_dk w0)).
+  { rewrite <- (i_pid _ _ _ D0). lia. }
+  assert (Ptl := p_tl _ _ P0).
+  replace ((fr_head (w_fr w0) <? disk_id (w_dk w0)) || (disk_id (w_dk w0) <? fr_tail (w_fr w0)))
+    with false.
+  2:{ symmetry. apply orb_false_iff. split; apply N.ltb_ge; lia. }
+  (* the crash points *)
+  assert (CPE : forall e, In e ((ed ++ e1 ++ [])) -> CP (snd e)).
+  { intros e He. rewrite app_nil_r in He. apply in_app_iff in He. destruct He as [He|He].
+    - destruct (PD e He) as [A [B C]]. constructor.
+      + exists lp. exact A.
+      + intros j Hj. apply RJw. apply C. exact Hj.
+      + rewrite B. exact M.
+    - destruct (Pev e He) as [A [B C]]. constructor.
+      + exact A.
+      + intros j Hj. exfalso. apply (noslots_in _ j B). exact Hj.
+      + rewrite C, K8. exact M. }
+  assert (DO : forall wz, w_diffs wz = w_diffs w0 -> diffs_ok (sem_rev l') (len l') (w_diffs wz)).
+  { intros wz Ez. rewrite Ez. destruct DD as [[-> ->]|DD].
+    - rewrite K6. exact (li_diffs _ _ _ LI).
+    - rewrite DD. exact Logic.I. }
+  assert (RIz : forall wz, w_diffs wz = w_diffs w0 -> w_proot wz = w_proot w0 -> noslots wz -> RI wz).
+  { intros wz Ez Ep Nz. constructor.
+    - rewrite Ez. destruct DD as [[-> _]|DD]; [rewrite K6; exact R1|rewrite DD; constructor].
+    - rewrite Ez, Ep. destruct DD as [[-> _]|DD]; [rewrite K6, K2; exact R2|rewrite DD; simpl; tauto].
+    - intros j Hj. exfalso. apply (noslots_in _ j Nz). exact Hj. }
+  destruct (fr_head (w_fr w0) =? disk_id (w_dk w0)) eqn:EH.
+  - apply N.eqb_eq in EH.
+    exists (ed ++ e1 ++ []), (Done w0). split; [reflexivity|]. split; [exact CPE|].
+    simpl. constructor.
+    + exists l', lp'. constructor; auto.
+      * rewrite EH. exact Hn.
+      * intros j Hj. exfalso. apply (noslots_in _ j NS0). exact Hj.
+    + apply RIz; auto.
+    + intros j Hj. exfalso. apply (noslots_in _ j NS0). exact Hj.
+    + rewrite C0, K8. exact M.
+    + destruct NS0 as [_ [A B]]. rewrite A, B. reflexivity.
+  - apply N.eqb_neq in EH.
+    destruct (trunc_head_pinv w0 (disk_id (w_dk w0)) lp' P0 NS0 Ppid ltac:(lia))
+      as [PT [NT [ST [FT [DT [FD [CT [PRT ROT]]]]]]]].
+    set (w2 := fr_trunc_head w0 (disk_id (w_dk w0))) in *.
+    exists ((ed ++ e1 ++ []) ++ [(EV_TRUNC_HEAD, w2)]), (Done w2). split; [reflexivity|]. split.
+    { intros e He. apply in_app_iff in He. destruct He as [He|[<-|[]]]; [apply CPE; exact He|].
+      constructor.
+      - exists lp'. exact PT.
+      - intros j Hj. exfalso. apply (noslots_in _ j NT). exact Hj.
+      - simpl. rewrite CT, C0, K8. exact M. }
+    simpl. constructor.
+    + exists l', lp'. constructor.
+      * rewrite DT. exact D0.
+      * exact WF0.
+      * rewrite FT. simpl. exact Hn.
+      * rewrite FT. simpl. eapply fok_mono; [exact ST|exact FK0].
+      * apply DO. exact FD.
+      * exact PT.
+      * intros j Hj. exfalso. apply (noslots_in _ j NT). exact Hj.
+    + apply RIz; auto.
+    + intros j Hj. exfalso. apply (noslots_in _ j NT). exact Hj.
+    + rewrite CT, C0, K8. exact M.
+    + destruct NT as [_ [A B]]. rewrite A, B. reflexivity.
+Qed.
 
 (* ---------- histories ------------------------------------------------------------------------------- *)
 
